@@ -139,7 +139,7 @@ def aggregate(pid, tier, seed, mod, cases, rundir, crashed, hashseeds, git, t0) 
                     strata[name].update(c)
                 for tag, lst in ev["samples"].items():
                     for s in lst:
-                        if len(samples[tag]) < 2:
+                        if len(samples[tag]) < (2 if tag != "slow_case" else 8):
                             samples[tag].append(s)
                 notes.update(ev["notes"])
     nshards = len(list(rundir.glob("shard*.cases.json")))
